@@ -29,6 +29,8 @@ type Wide struct {
 	Seq int
 	// K is unique (used by the long-batch part of C07; the sweeps give every object its own)
 	K string `sod:"unique"`
+	// N is unique too (an integer): the sweeps give every object its own
+	N int `sod:"unique"`
 }
 
 var errWideInvalid = errors.New("wide: invalid")
@@ -205,7 +207,7 @@ func longIndexSweep(c *Ctx, cfg Cfg, length, idx int) []Violation {
 			return true
 		}
 		for i, v := range digits {
-			o := &Wide{A: v, B: wideB(v), U: v, Seq: i, K: wideKey()}
+			o := &Wide{A: v, B: wideB(v), U: v, Seq: i, K: wideKey(), N: wideSerial}
 			if err := db.InsertOrUpdate(o); err != nil {
 				fail("insert", fmt.Sprintf("insert #%d failed: %v", i, err))
 				return
@@ -223,7 +225,7 @@ func longIndexSweep(c *Ctx, cfg Cfg, length, idx int) []Violation {
 		// in-place updates, then deletions
 		for i := range model {
 			nv := (model[i].v + 1 + i%2) % 3
-			o := &Wide{A: nv, B: wideB(nv), U: nv, Seq: model[i].seq, K: wideKey()}
+			o := &Wide{A: nv, B: wideB(nv), U: nv, Seq: model[i].seq, K: wideKey(), N: wideSerial}
 			o.Initialize(model[i].uuid)
 			if err := db.InsertOrUpdate(o); err != nil {
 				fail("update", fmt.Sprintf("update of #%d failed: %v", i, err))
@@ -445,7 +447,7 @@ func longOrderSweep(c *Ctx, cfg Cfg, length, idx int) []Violation {
 		var uuids []string
 		vals := map[string]int{}
 		for i, v := range digits {
-			o := &Wide{A: v, B: wideB(v), U: v, Seq: i, K: wideKey()}
+			o := &Wide{A: v, B: wideB(v), U: v, Seq: i, K: wideKey(), N: wideSerial}
 			if err := db.InsertOrUpdate(o); err != nil {
 				fail("insert", fmt.Sprintf("insert #%d failed: %v", i, err))
 				return
@@ -459,7 +461,7 @@ func longOrderSweep(c *Ctx, cfg Cfg, length, idx int) []Violation {
 		}
 		for i, u := range uuids {
 			nv := (vals[u] + 1 + i%2) % 3
-			o := &Wide{A: nv, B: wideB(nv), U: nv, Seq: i, K: wideKey()}
+			o := &Wide{A: nv, B: wideB(nv), U: nv, Seq: i, K: wideKey(), N: wideSerial}
 			o.Initialize(u)
 			if err := db.InsertOrUpdate(o); err != nil {
 				fail("update", fmt.Sprintf("update of #%d failed: %v", i, err))
